@@ -419,9 +419,16 @@ struct Visitor : RecursiveASTVisitor<Visitor> {
 
   bool VisitFunctionDecl(FunctionDecl *F) {
     if (!F->doesThisDeclarationHaveABody()) return true;
-    if (!inMain(F->getLocation())) return true;
+    bool fromHeader = false;
+    if (!inMain(F->getLocation())) {
+      // static (inline) helpers defined in the project's own headers belong to every unit that includes them
+      if (X.SM.isInSystemHeader(X.SM.getExpansionLoc(F->getLocation())) || F->getStorageClass() != SC_Static) return true;
+      fromHeader = true;
+    }
     FnExtractor FE(X);
-    Fns.push_back(FE.function(F));
+    json::Value FV = FE.function(F);
+    if (fromHeader) if (auto *FO = FV.getAsObject()) (*FO)["from_header"] = true;
+    Fns.push_back(std::move(FV));
     return true;
   }
   bool VisitVarDecl(VarDecl *V) {
